@@ -196,6 +196,14 @@ func init() {
 			}
 			roundTrip(c, l, "big", "")
 		}
+		dir, cleanup := scratch()
+		defer cleanup()
+		for _, l := range keyListLines(dir) {
+			if !c.Mine() {
+				continue
+			}
+			roundTrip(c, l, "key-list", "")
+		}
 		c.Sample("-a always,exit -S 2 -F dir=/aaa...(4000) -F exe=/bbb...(4000) => listed text re-encodes to the same 9 KiB rule")
 	}
 	gens["c07-runes"] = func(c *enumx.Ctx) {
@@ -296,6 +304,21 @@ func init() {
 			if ch == ',' {
 				key = "ky" // a comma separates keys on the command line (recorded known finding for watches)
 			}
+			// ... and as the FIRST and as the LAST byte of the key (comment signs, option dashes, sigils)
+			if ch != ',' && ch != '-' {
+				for _, k2 := range []string{string(rune(ch)) + "ky", "ky" + string(rune(ch)), string(rune(ch))} {
+					for _, l := range []string{
+						"-a always,exit -F path=" + fn + " -F perm=wa -F key=" + k2,
+						"-a always,exit -F dir=" + dn + " -F perm=r -F key=" + k2,
+						"-a always,exit -S open -F uid=0 -F key=" + k2,
+					} {
+						if !c.Mine() {
+							continue
+						}
+						roundTrip(c, l, "watch-shaped", " punctuation-at-key-edge")
+					}
+				}
+			}
 			for _, l := range []string{
 				"-a always,exit -F path=" + fn + " -F perm=wa -F key=" + key,
 				"-a always,exit -F dir=" + dn + " -F perm=r",
@@ -343,6 +366,21 @@ func init() {
 // bigRuleLines: rules that carry a LOT of string data in total while every single string stays
 // within what Build allows: k string-valued filters of equal length L (+ a maximal key).  Limits
 // on the whole rule (message size 8970, page size, 64 KiB) are crossed by sums, not by one string.
+// keyListLines: several keys whose JOINED length approaches and crosses the limit a single key has (256): what Build
+// accepts lists as text that Build accepts again.
+func keyListLines(dir string) []string {
+	var out []string
+	for _, sh := range [][2]int{{2, 100}, {2, 127}, {2, 128}, {2, 129}, {2, 150}, {2, 255}, {2, 256}, {3, 84}, {3, 85}, {3, 86}, {4, 63}, {4, 64}, {16, 15}, {16, 16}, {26, 9}, {26, 10}, {64, 3}, {64, 4}, {100, 2}, {129, 1}} {
+		var ks []string
+		for i := 0; i < sh[0]; i++ {
+			ks = append(ks, "-k "+strings.Repeat(string(rune('a'+i%26)), sh[1]))
+		}
+		k := strings.Join(ks, " ")
+		out = append(out, "-a always,exit -S open -F uid=0 "+k, "-w "+dir+"/f -p wa "+k, "-a always,exit -F dir="+dir+"/d -F perm=r "+k, "-a never,task "+k)
+	}
+	return out
+}
+
 func bigRuleLines() []string {
 	fields := []string{"dir", "exe", "subj_user", "subj_role", "subj_type", "obj_user", "obj_role", "obj_type"}
 	var out []string
